@@ -78,7 +78,7 @@ def run(ctx):
     rnd = ctx.rnd
     ctx.rule = ("row sequences of 0-10 rows over key alphabets of size 2-3 (duplicates at every pair of positions), key sets of 1-3 fields (a third of them may be empty, the empty cell being one more key value), "
                 "DistinctCount with all six operators x thresholds 0-4, interleaved rows rejected by a field or by another check, one or two checks in either order, "
-                "three error modes; statement evaluated on the implementation's trace + model comparison; distinct = distinct (CID, table, mode); "
+                "three error modes run one after the other on the same CID object in any order (half of the time with all Reader objects created up front); statement evaluated on the implementation's trace + model comparison; distinct = distinct (CID, table, mode); "
                 "non-trivial = at least two data rows")
     n = 1500 if ctx.tier == "quick" else 20000
     scns = []
@@ -112,7 +112,11 @@ def run(ctx):
                 checks.append({"kind": "S", "col": rnd.randrange(nf), "veto": rnd.choice(["1", "a", "2"]), "fail": False})
         table = engine.gen_table(rnd, fields, "delimited", rnd.randint(0, 10), p_bad=rnd.choice([0, 0.1, 0.25]), p_ragged=0.03)
         header = rnd.choice([0, 0, 0, 1])
-        runs = [{"kind": "R", "api": "c", "mode": mode, "limit": None, "rows": table, "close": True} for mode in ("yield", "continue", "raise")]
+        # the three passes share the CID object; their order varies, and in half of the cases all three Reader objects exist before the first pass starts
+        modes = ["yield", "continue", "raise"]
+        rnd.shuffle(modes)
+        early = rnd.random() < 0.5
+        runs = [{"kind": "R", "api": "c", "mode": mode, "limit": None, "rows": table, "close": True, "early": early} for mode in modes]
         scns.append({"format": "delimited", "allowed": None, "fields": fields, "checks": checks, "header": header, "runs": runs})
     for scn, mruns, iruns in engine.run_scenarios(scns):
         sc = engine.strip_scn(scn)
